@@ -1,0 +1,14 @@
+//go:build verif
+
+package uuid
+
+// Verification hook (build tag `verif` only): put a generator into a given state, so that single expressions of
+// Next can be evaluated on chosen field values (the translator check of the verification harness). Nothing here is
+// compiled without the tag.
+
+// VerifSetState overwrites (machineID, seq, lastTimeUnit, lastID, backwardsCount).
+func (sf *Snowflake) VerifSetState(machineID, seq, lastTimeUnit, lastID, backwardsCount int64) {
+	sf.guard.Lock()
+	defer sf.guard.Unlock()
+	sf.machineID, sf.seq, sf.lastTimeUnit, sf.lastID, sf.backwardsCount = machineID, seq, lastTimeUnit, lastID, backwardsCount
+}
